@@ -48,7 +48,7 @@ def main(tier, only):
         common.src_range("src/isla_formalizations/simple_tar.py", "tar_checksum"), common.src_range("src/isla_formalizations/tar.py", "ljust_crop_tar"), common.src_range("src/isla/evaluator.py", "evaluate"),
         common.src_range("src/isla/solver.py", "ISLaSolver.solve")])
     quick = tier == "quick"
-    D, TOP = (3, 6) if quick else (4, 16)
+    D, TOP = (3, 6) if quick else (4, 4)      # thorough: tree codes below 4 * 16^3 = 16384 (the full 16^4 space did not finish within an hour)
     P = 4 if quick else 16
     to = 600 if quick else 5400
     cfgs = []
